@@ -62,7 +62,7 @@ PROPS = {
     },
     "C04": {
         "level": "other",
-        "level_text": "Mixed. Proved on the real splitter functions (A-RE assumed): marks are consumed strictly left to right (the cursor never decreases), at most one mark is pending and it is the one yielded last; no scanner or handler ever consumes an '@' mark: on meeting one it hands it back and aborts with end_index = its start, so split's next iteration starts a block exactly there; after every block or failure the scanner state is reset and nothing is pending except such a handed-back mark; at the end all marks are consumed. Bounded (native, labelled): equality of the blocks of D1+X+D2 with those of D1 and D2 (needs the grammar lemma for D1/D2), random corruptions.",
+        "level_text": "Mixed. Proved on the real splitter functions (A-RE assumed): marks are consumed strictly left to right (the cursor never decreases), at most one mark is pending and it is the one yielded last; no scanner or handler ever consumes an '@' mark: on meeting one it hands it back and aborts with end_index = its start, so split's next iteration starts a block exactly there; after every block or failure the scanner state is reset and nothing is pending except such a handed-back mark; at the end all marks are consumed; the blocks of successive block regions of the text sit at successive positions of the library (source order, ghost regions of split()). Bounded (native, labelled): equality of the blocks of D1+X+D2 with those of D1 and D2 (needs the grammar lemma for D1/D2), random corruptions.",
         "level_note": MARK_NOTE,
         "modules": ["schema", "library", "model", "splitter"],
         "functions": SPLIT_SCANNERS + SPLIT_HANDLERS + [SP + "split", SP + "_end_implicit_comment"],
